@@ -252,7 +252,9 @@ Proof.
     + eapply oe_qp with (s1 := set_shut s); [qrl | apply pcu_finish_close | exact Hw].
   - discriminate.
   - inversion H; subst.
-    eapply oe_qp with (s1 := set_table s (next_sid s + 1)%N (table s ++ [(next_sid s, t)])); [qrl | apply pcu_set_task | exact Hw].
+    eapply oe_qp with (s1 := set_rtable s (next_sid s + 1)%N (rtable s ++ [(next_sid s, t)])); [qrl | apply pcu_set_task | exact Hw].
+  - inversion H; subst.
+    eapply oe_qp with (s1 := set_table s (next_sid s) (table s ++ [(sid, t)])); [qrl | apply pcu_set_task | exact Hw].
   - inversion H; subst. eapply oe_of_pcu; [apply pcu_set_task | exact Hw].
   - discriminate.
 Qed.
@@ -331,6 +333,7 @@ Proof.
     + exfalso. pose proof (inv_free s HI Ewr) as Hn.
       assert (In t (waiters s)) as Hi by (apply (inv_wait s HI); unfold pcof; rewrite Epc; reflexivity).
       rewrite Hn in Hi. exact Hi.
+  - en_tac Epc. discriminate.
   - en_tac Epc. discriminate.
   - en_tac Epc. discriminate.
   - right; left; right. unfold awaits_app, pcof. exact Epc.
@@ -493,6 +496,7 @@ Proof.
   - discriminate.
   - inversion H; subst. cbn in C'. congruence.
   - inversion H; subst. cbn in C'. congruence.
+  - inversion H; subst. cbn in C'. congruence.
   - discriminate.
 Qed.
 
@@ -532,7 +536,29 @@ Proof. intros C. discriminate. Qed.
 Lemma table_enter_close s w a k : table (enter_close s w a k) = table s.
 Proof. unfold enter_close. destruct (closed s); [apply table_finish_close | reflexivity]. Qed.
 
-(* ---- what a step can do to the stream table ---- *)
+(* ---- what a step can do to the two stream tables ---- *)
+Lemma rtable_finish_close s t a k : rtable (finish_close s t a k) = rtable s.
+Proof. destruct a; [| destruct k |]; reflexivity. Qed.
+Lemma rtable_finish_w s t k r : rtable (finish_w s t k r) = rtable s.
+Proof. destruct k, r; reflexivity. Qed.
+Lemma rtable_enter_close s w a k : rtable (enter_close s w a k) = rtable s.
+Proof. unfold enter_close. destruct (closed s); [apply rtable_finish_close | reflexivity]. Qed.
+Lemma rtable_release_ws ws : forall s, rtable (release_ws ws s) = rtable s.
+Proof.
+  induction ws as [|w ws IH]; intros s; cbn [release_ws]; [reflexivity|].
+  destruct (t_pc (tasks s w)); try reflexivity. rewrite IH. apply (rtable_finish_close (set_shut s)).
+Qed.
+Lemma rtable_push s t f : rtable (push_item s t f) = rtable s.
+Proof.
+  unfold push_item. destruct (pump_owner s) as [p|]; [|reflexivity].
+  destruct (is_ppwait (t_pc (tasks s p))); [destruct (closed s)|]; reflexivity.
+Qed.
+Lemma rtable_wake s : rtable (wake_pump_closed s) = rtable s.
+Proof.
+  unfold wake_pump_closed. destruct (closed s); [|reflexivity]. destruct (pump_owner s) as [p|]; [|reflexivity].
+  destruct (is_ppwait (t_pc (tasks s p))); reflexivity.
+Qed.
+
 Lemma table_feed s ev :
   table (feed_ev s ev) = table s \/ exists o, table (feed_ev s ev) = remove_owner (table s) o.
 Proof.
@@ -544,57 +570,148 @@ Proof.
     try (left; reflexivity); try (right; eexists; reflexivity); left;
     first [apply table_enter_close | apply (table_enter_close (mark_state s))].
 Qed.
-
-Definition table_effect (s s' : state) (t : tid) : Prop :=
-  table s' = table s \/ table s' = [] \/ (exists o, table s' = remove_owner (table s) o)
-  \/ (pcof s t = PO0 /\ table s' = table s ++ [(next_sid s, t)]).
-
-Lemma step_table s t s' : step s t = Some s' -> table_effect s s' t.
+Lemma rtable_feed s ev :
+  rtable (feed_ev s ev) = rtable s \/ exists o, rtable (feed_ev s ev) = remove_owner (rtable s) o.
 Proof.
-  intros H. unfold step in H. unfold table_effect.
+  unfold feed_ev. destruct (negb (ralive s)); [left; reflexivity|].
+  destruct ev;
+    repeat match goal with
+           | |- context [match ?x with _ => _ end] => destruct x eqn:?
+           end;
+    try (left; reflexivity); try (right; eexists; reflexivity); left;
+    first [apply rtable_enter_close | apply (rtable_enter_close (mark_state s))].
+Qed.
+
+(* `streams` gets an entry only by the second insert of open_stream (PO0b), `stream_receive_tx` only by the first
+   (PO0); close() empties the first and removes the drained pairs from the second; a received FIN removes the
+   owner's entries from both *)
+Definition is_pc1 (p : pc) : bool := match p with PC1 _ _ => true | _ => false end.
+
+Inductive tables_effect (s s' : state) (t : tid) : Prop :=
+| TE_same : table s' = table s -> rtable s' = rtable s -> ((forall x, pcof s t <> PO0b x) /\ is_pc1 (pcof s t) = false) -> tables_effect s s' t
+| TE_drain : forall a k, pcof s t = PC1 a k -> table s' = [] -> rtable s' = minus_pairs (rtable s) (table s) -> tables_effect s s' t
+| TE_fin : forall o, pcof s t = PIdle -> table s' = remove_owner (table s) o ->
+    (rtable s' = remove_owner (rtable s) o \/ (rtable s' = rtable s /\ lookup_owner (rtable s) o = None)) -> tables_effect s s' t
+| TE_first : pcof s t = PO0 -> table s' = table s -> rtable s' = rtable s ++ [(next_sid s, t)] -> tables_effect s s' t
+| TE_second : forall sid, pcof s t = PO0b sid -> table s' = table s ++ [(sid, t)] -> rtable s' = rtable s -> tables_effect s s' t.
+
+Lemma lookup_none_not_in tb o : lookup_owner tb o = None -> forall sid, ~ In (sid, o) tb.
+Proof.
+  induction tb as [|[sid' o'] tb IH]; intros E sid Hin; [destruct Hin|].
+  cbn in E. destruct (Nat.eqb o' o) eqn:Eo; [discriminate|]. destruct Hin as [X|X].
+  - inversion X; subst. rewrite Nat.eqb_refl in Eo. discriminate.
+  - apply (IH E sid X).
+Qed.
+
+Lemma feed_tables s ev :
+  (table (feed_ev s ev) = table s /\ rtable (feed_ev s ev) = rtable s) \/
+  exists o, table (feed_ev s ev) = remove_owner (table s) o /\
+            (rtable (feed_ev s ev) = remove_owner (rtable s) o \/
+             (rtable (feed_ev s ev) = rtable s /\ lookup_owner (rtable s) o = None)).
+Proof.
+  unfold feed_ev. destruct (negb (ralive s)); [left; split; reflexivity|].
+  destruct ev;
+    repeat match goal with
+           | |- context [match ?x with _ => _ end] => destruct x eqn:?
+           end;
+    try (left; split; reflexivity);
+    try (left; split; [first [apply table_enter_close | apply (table_enter_close (mark_state s))]
+                      | first [apply rtable_enter_close | apply (rtable_enter_close (mark_state s))]]).
+  - right. exists owner. split; [reflexivity | left; reflexivity].
+  - right. exists owner. split; [reflexivity | right; split; [reflexivity | assumption]].
+Qed.
+
+Lemma step_tables s t s' : step s t = Some s' -> tables_effect s s' t.
+Proof.
+  intros H. unfold step in H.
   destruct (t_pc (tasks s t)) eqn:Epc.
   - destruct (t_prog (tasks s t)) as [|c rest]; [discriminate|].
     unfold start_call in H. set (s0 := set_task s t (with_prog (tasks s t) rest)) in *.
+    assert ((forall x, pcof s t <> PO0b x) /\ is_pc1 (pcof s t) = false) as NP by (split; [intros x; unfold pcof; rewrite Epc; discriminate | unfold pcof; rewrite Epc; reflexivity]).
     destruct c;
       repeat match type of H with
              | context [match ?x with _ => _ end] => destruct x eqn:?
-             end; inversion H; subst; try (left; reflexivity).
-    + left. apply (table_enter_close s0).
-    + destruct (table_feed s0 ev) as [A|[o A]]; [left; exact A | right; right; left; exists o; exact A].
-    + left. match goal with |- context [push_item ?a ?b ?c] => destruct (flags_push a b c) as (_ & _ & _ & F) end. exact F.
-  - destruct (closed s); [|destruct (buffering s)]; inversion H; subst; left; [apply table_finish_w | reflexivity | reflexivity].
-  - inversion H; subst. left. rewrite table_finish_w. reflexivity.
-  - destruct (wr s); inversion H; subst; left; reflexivity.
+             end; inversion H; subst; try (apply TE_same; [reflexivity | reflexivity | exact NP]).
+    + apply TE_same; [apply (table_enter_close s0) | apply (rtable_enter_close s0) | exact NP].
+    + destruct (feed_tables s0 ev) as [[T R]|(o & T & R)].
+      * apply TE_same; [exact T | exact R | exact NP].
+      * apply (TE_fin s _ t o); [unfold pcof; exact Epc | exact T | exact R].
+    + apply TE_same; [|  | exact NP].
+      * match goal with |- context [push_item ?a ?b ?c] => destruct (flags_push a b c) as (_ & _ & _ & F) end. exact F.
+      * match goal with |- context [push_item ?a ?b ?c] => apply (rtable_push a b c) end.
+  - assert ((forall x, pcof s t <> PO0b x) /\ is_pc1 (pcof s t) = false) as NP by (split; [intros x; unfold pcof; rewrite Epc; discriminate | unfold pcof; rewrite Epc; reflexivity]).
+    destruct (closed s); [|destruct (buffering s)]; inversion H; subst;
+      (apply TE_same; [first [apply table_finish_w | reflexivity] | first [apply rtable_finish_w | reflexivity] | exact NP]).
+  - assert ((forall x, pcof s t <> PO0b x) /\ is_pc1 (pcof s t) = false) as NP by (split; [intros x; unfold pcof; rewrite Epc; discriminate | unfold pcof; rewrite Epc; reflexivity]).
+    inversion H; subst. apply TE_same; [rewrite table_finish_w; reflexivity | rewrite rtable_finish_w; reflexivity | exact NP].
+  - assert ((forall x, pcof s t <> PO0b x) /\ is_pc1 (pcof s t) = false) as NP by (split; [intros x; unfold pcof; rewrite Epc; discriminate | unfold pcof; rewrite Epc; reflexivity]).
+    destruct (wr s); inversion H; subst; apply TE_same; [reflexivity | reflexivity | exact NP | reflexivity | reflexivity | exact NP].
   - discriminate.
-  - inversion H; subst. left. reflexivity.
-  - destruct (failing s || shut s); inversion H; subst; left.
+  - assert ((forall x, pcof s t <> PO0b x) /\ is_pc1 (pcof s t) = false) as NP by (split; [intros x; unfold pcof; rewrite Epc; discriminate | unfold pcof; rewrite Epc; reflexivity]).
+    inversion H; subst. apply TE_same; [reflexivity | reflexivity | exact NP].
+  - assert ((forall x, pcof s t <> PO0b x) /\ is_pc1 (pcof s t) = false) as NP by (split; [intros x; unfold pcof; rewrite Epc; discriminate | unfold pcof; rewrite Epc; reflexivity]).
+    destruct (failing s || shut s); inversion H; subst; apply TE_same; try exact NP.
     + set (s1 := set_wire s (pkt s + 1)%N (wire s)) in *.
       change (table (release s1) = table s). unfold release. destruct (release_ws_closed (waiters s1) s1) as [_ B]. rewrite B. reflexivity.
+    + set (s1 := set_wire s (pkt s + 1)%N (wire s)) in *.
+      change (rtable (release s1) = rtable s). unfold release. rewrite rtable_release_ws. reflexivity.
     + set (s1 := set_wire s (pkt s + 1)%N (wire s ++ [((pkt s + 1)%N, held)])) in *.
       rewrite table_finish_w. unfold release. destruct (release_ws_closed (waiters s1) s1) as [_ B]. rewrite B. reflexivity.
-  - inversion H; subst. left. apply table_enter_close.
-  - inversion H; subst. right; left. reflexivity.
-  - destruct (wr s); inversion H; subst; left; [reflexivity|]. rewrite table_finish_close. reflexivity.
+    + set (s1 := set_wire s (pkt s + 1)%N (wire s ++ [((pkt s + 1)%N, held)])) in *.
+      rewrite rtable_finish_w. unfold release. rewrite rtable_release_ws. reflexivity.
+  - assert ((forall x, pcof s t <> PO0b x) /\ is_pc1 (pcof s t) = false) as NP by (split; [intros x; unfold pcof; rewrite Epc; discriminate | unfold pcof; rewrite Epc; reflexivity]).
+    inversion H; subst. apply TE_same; [apply table_enter_close | apply rtable_enter_close | exact NP].
+  - cbv zeta in H. inversion H; subst. apply (TE_drain s _ t a k); [unfold pcof; exact Epc | reflexivity |].
+    cbn [rtable set_pc set_task set_tasks drain_state set_rtable]. rewrite rtable_wake, (proj1 (proj2 (proj2 (proj2 (flags_wake s))))). reflexivity.
+  - assert ((forall x, pcof s t <> PO0b x) /\ is_pc1 (pcof s t) = false) as NP by (split; [intros x; unfold pcof; rewrite Epc; discriminate | unfold pcof; rewrite Epc; reflexivity]).
+    destruct (wr s); inversion H; subst; apply TE_same; try exact NP; try reflexivity;
+      [rewrite table_finish_close | rewrite rtable_finish_close]; reflexivity.
   - discriminate.
-  - inversion H; subst. right; right; right. split; [unfold pcof; exact Epc | reflexivity].
-  - inversion H; subst. left. reflexivity.
+  - inversion H; subst. apply TE_first; [unfold pcof; exact Epc | reflexivity | reflexivity].
+  - inversion H; subst. apply (TE_second s _ t sid); [unfold pcof; exact Epc | reflexivity | reflexivity].
+  - assert ((forall x, pcof s t <> PO0b x) /\ is_pc1 (pcof s t) = false) as NP by (split; [intros x; unfold pcof; rewrite Epc; discriminate | unfold pcof; rewrite Epc; reflexivity]).
+    inversion H; subst. apply TE_same; [reflexivity | reflexivity | exact NP].
   - discriminate.
+Qed.
+
+Definition table_effect (s s' : state) (t : tid) : Prop :=
+  table s' = table s \/ table s' = [] \/ (exists o, table s' = remove_owner (table s) o)
+  \/ (exists sid, pcof s t = PO0b sid /\ table s' = table s ++ [(sid, t)]).
+
+Lemma step_table s t s' : step s t = Some s' -> table_effect s s' t.
+Proof.
+  intros H. unfold table_effect.
+  destruct (step_tables s t s' H) as [T _ _|a k _ T _|o _ T _|_ T _|sid P T _]; eauto.
+  right; right; right. exists sid. auto.
 Qed.
 
 Lemma in_remove_owner_inv tb e o : In e (remove_owner tb o) -> In e tb.
 Proof. unfold remove_owner. intros H. apply filter_In in H. exact (proj1 H). Qed.
+Lemma in_minus_pairs_inv l d e : In e (minus_pairs l d) -> In e l.
+Proof. unfold minus_pairs. intros H. apply filter_In in H. exact (proj1 H). Qed.
 
 Lemma step_table_in s t s' e :
-  step s t = Some s' -> In e (table s') -> In e (table s) \/ (pcof s t = PO0 /\ e = (next_sid s, t)).
+  step s t = Some s' -> In e (table s') -> In e (table s) \/ (exists sid, pcof s t = PO0b sid /\ e = (sid, t)).
 Proof.
-  intros H Hin. destruct (step_table s t s' H) as [A|[A|[[o A]|[P A]]]]; rewrite A in Hin.
+  intros H Hin. destruct (step_table s t s' H) as [A|[A|[[o A]|(sid & P & A)]]]; rewrite A in Hin.
   - left. exact Hin.
   - destruct Hin.
   - left. eapply in_remove_owner_inv. exact Hin.
-  - apply in_app_or in Hin. destruct Hin as [Hin|[<-|[]]]; [left; exact Hin | right; split; [exact P | reflexivity]].
+  - apply in_app_or in Hin. destruct Hin as [Hin|[<-|[]]]; [left; exact Hin | right; exists sid; split; [exact P | reflexivity]].
 Qed.
 
-Definition is_pc1 (p : pc) : bool := match p with PC1 _ _ => true | _ => false end.
+Lemma step_rtable_in s t s' e :
+  step s t = Some s' -> In e (rtable s') -> In e (rtable s) \/ (pcof s t = PO0 /\ e = (next_sid s, t)).
+Proof.
+  intros H Hin. destruct (step_tables s t s' H) as [_ R _|a k _ _ R|o _ _ [R|[R _]]|P _ R|sid _ _ R]; rewrite R in Hin.
+  - left. exact Hin.
+  - left. eapply in_minus_pairs_inv. exact Hin.
+  - left. eapply in_remove_owner_inv. exact Hin.
+  - left. exact Hin.
+  - apply in_app_or in Hin. destruct Hin as [Hin|[<-|[]]]; [left; exact Hin | right; split; [exact P | reflexivity]].
+  - left. exact Hin.
+Qed.
+
 
 Lemma step_closed_by_pc1 s t s' :
   step s t = Some s' -> closed s = false -> closed s' = true ->
@@ -633,6 +750,7 @@ Proof.
   - destruct (wr s); inversion H; subst; [cbn in C'; congruence|].
     rewrite closed_finish_close in C'. cbn in C'. congruence.
   - discriminate.
+  - inversion H; subst. cbn in C'. congruence.
   - inversion H; subst. cbn in C'. congruence.
   - inversion H; subst. cbn in C'. congruence.
   - discriminate.
@@ -674,12 +792,16 @@ Proof.
   - discriminate.
   - inversion H; subst. cbn in C'. congruence.
   - inversion H; subst. cbn in C'. congruence.
+  - inversion H; subst. cbn in C'. congruence.
   - discriminate.
 Qed.
 
 (* ---- every reader is released: a stream handle is either still registered or its queue is closed ---- *)
+Lemma prod_eq_dec (a b : N * tid) : {a = b} + {a <> b}.
+Proof. decide equality; [apply Nat.eq_dec | apply N.eq_dec]. Qed.
+
 Definition reader_ok (s : state) : Prop :=
-  forall u sid, t_sid (tasks s u) = Some sid -> In (sid, u) (table s) \/ t_rclosed (tasks s u) = true.
+  forall u sid, t_sid (tasks s u) = Some sid -> In (sid, u) (rtable s) \/ t_rclosed (tasks s u) = true.
 
 (* fields of other tasks: the stream handle is kept (or dropped, when the task's open failed), a closed
    queue stays closed *)
@@ -735,7 +857,7 @@ Proof.
 Qed.
 
 Lemma reader_ok_keep s s' :
-  reader_ok s -> table s' = table s -> (forall u, keeps_stream (tasks s u) (tasks s' u)) -> reader_ok s'.
+  reader_ok s -> rtable s' = rtable s -> (forall u, keeps_stream (tasks s u) (tasks s' u)) -> reader_ok s'.
 Proof.
   intros R T K u sid H. destruct (K u) as [[E|E] M]; [|congruence].
   rewrite E in H. destruct (R u sid H) as [A|A]; [left; rewrite T; exact A | right; apply M; exact A].
@@ -766,18 +888,19 @@ Proof.
   - destruct (lookup_owner (table s) owner); [|exact R].
     destruct (t_verdict (tasks s owner)); [exact R|].
     eapply reader_ok_keep; [exact R | reflexivity | intros u; apply ks_set_task; split; auto].
-  - destruct (lookup_owner (table s) owner); [|exact R].
+  - destruct (lookup_owner (rtable s) owner); [|exact R].
     eapply reader_ok_keep; [exact R | reflexivity | intros u; apply ks_set_task; split; auto].
-  - destruct (lookup_owner (table s) owner); [|exact R].
-    intros u sid H. cbn [table set_table]. cbn [tasks set_table set_task set_tasks] in *.
-    destruct (Nat.eq_dec u owner) as [->|Hne].
-    + right. rewrite upd_same. reflexivity.
-    + rewrite upd_other in * by exact Hne. destruct (R u sid H) as [A|A]; [left; apply in_remove_owner; assumption | right; exact A].
+  - destruct (lookup_owner (rtable s) owner).
+    + intros u sid H. cbn [rtable set_table set_rtable]. cbn [tasks set_table set_rtable set_task set_tasks] in *.
+      destruct (Nat.eq_dec u owner) as [->|Hne].
+      * right. rewrite upd_same. reflexivity.
+      * rewrite upd_other in * by exact Hne. destruct (R u sid H) as [A|A]; [left; apply in_remove_owner; assumption | right; exact A].
+    + eapply reader_ok_keep; [exact R | reflexivity | intros u; apply ks_refl].
   - destruct (pc_is_idle (t_pc (tasks s rtid))); [|exact R].
-    eapply reader_ok_keep; [exact R | apply (table_enter_close (mark_state s)) |
+    eapply reader_ok_keep; [exact R | apply (rtable_enter_close (mark_state s)) |
                             intros u; eapply ks_trans; [apply ks_mark | apply ks_enter_close]].
   - destruct (pc_is_idle (t_pc (tasks s rtid))); [|exact R].
-    eapply reader_ok_keep; [exact R | apply table_enter_close | intros u; apply ks_enter_close].
+    eapply reader_ok_keep; [exact R | apply rtable_enter_close | intros u; apply ks_enter_close].
   - destruct (pc_is_idle (t_pc (tasks s rtid))); [|exact R].
     eapply reader_ok_keep; [exact R | reflexivity | intros u; apply ks_set_pc].
 Qed.
@@ -800,19 +923,44 @@ Proof. apply (flags_push s t f). Qed.
 Lemma table_wake s : table (wake_pump_closed s) = table s.
 Proof. apply (flags_wake s). Qed.
 
+(* membership in the pair filter *)
+Lemma pair_eqb_refl e : pair_eqb e e = true.
+Proof. unfold pair_eqb. rewrite N.eqb_refl, Nat.eqb_refl. reflexivity. Qed.
+Lemma pair_eqb_eq a b : pair_eqb a b = true -> a = b.
+Proof.
+  unfold pair_eqb. intros H. apply andb_prop in H. destruct H as [A B]. apply N.eqb_eq in A. apply Nat.eqb_eq in B.
+  destruct a, b. cbn in *. subst. reflexivity.
+Qed.
+Lemma in_minus_pairs l d e : In e l -> ~ In e d -> In e (minus_pairs l d).
+Proof.
+  intros H N. unfold minus_pairs. apply filter_In. split; [exact H|]. apply negb_true_iff.
+  destruct (existsb (pair_eqb e) d) eqn:E; [|reflexivity]. exfalso. apply existsb_exists in E.
+  destruct E as (x & Hx & Ex). apply pair_eqb_eq in Ex. subst x. apply N. exact Hx.
+Qed.
+Lemma minus_pairs_not_in l d e : In e (minus_pairs l d) -> ~ In e d.
+Proof.
+  unfold minus_pairs. intros H Hd. apply filter_In in H. destruct H as [_ H]. apply negb_true_iff in H.
+  assert (existsb (pair_eqb e) d = true) as X by (apply existsb_exists; exists e; split; [exact Hd | apply pair_eqb_refl]).
+  congruence.
+Qed.
+
 Lemma reader_ok_drain s t p :
   reader_ok s ->
-  reader_ok (set_pc (set_table (set_tasks s (drain (table s) (tasks s))) (next_sid s) []) t p).
+  reader_ok (set_pc (drain_state s) t p).
 Proof.
   intros R u sid H.
   assert (keeps_stream (drain (table s) (tasks s) u)
-            (tasks (set_pc (set_table (set_tasks s (drain (table s) (tasks s))) (next_sid s) []) t p) u)) as K
-    by (apply (ks_set_pc (set_table (set_tasks s (drain (table s) (tasks s))) (next_sid s) []) t p u)).
+            (tasks (set_pc (drain_state s) t p) u)) as K
+    by (apply (ks_set_pc (drain_state s) t p u)).
   destruct K as [[E|E] M]; [|congruence].
-  change (tasks (set_table (set_tasks s (drain (table s) (tasks s))) (next_sid s) []) u) with (drain (table s) (tasks s) u) in E.
+  change (tasks (drain_state s) u) with (drain (table s) (tasks s) u) in E.
   rewrite E in H. destruct (drain_keeps (table s) (tasks s) u) as (A & _ & B & _).
-  rewrite B in H. right. apply M.
-  destruct (R u sid H) as [Hin|Hc]; [apply (drain_releases _ _ _ _ Hin) | apply A; exact Hc].
+  rewrite B in H.
+  change (rtable (set_pc (drain_state s) t p)) with (minus_pairs (rtable s) (table s)).
+  destruct (R u sid H) as [Hin|Hc]; [|right; apply M; apply A; exact Hc].
+  destruct (in_dec (fun a b : N * tid => prod_eq_dec a b) (sid, u) (table s)) as [Ht|Ht].
+  - right. apply M. apply (drain_releases _ _ _ _ Ht).
+  - left. apply in_minus_pairs; assumption.
 Qed.
 
 Theorem step_reader_ok s t s' : reader_ok s -> step s t = Some s' -> reader_ok s'.
@@ -836,23 +984,23 @@ Proof.
     + (* CRead consuming a chunk *)
       eapply reader_ok_keep; [exact R0 | reflexivity|]. intros u.
       eapply ks_trans; [apply KS with (v := with_rq x n0 (t_rclosed x)); split; auto | apply ks_finish].
-    + eapply reader_ok_keep; [exact R0 | apply table_enter_close | intros u; apply ks_enter_close].
+    + eapply reader_ok_keep; [exact R0 | apply rtable_enter_close | intros u; apply ks_enter_close].
     + eapply reader_ok_keep; [exact R0 | reflexivity | intros u; apply (ks_finish (set_buffering s0 false))].
     + eapply reader_ok_keep; [exact R0 | reflexivity | intros u; apply (ks_finish (set_buffering s0 true))].
     + eapply reader_ok_keep; [exact R0 | reflexivity | intros u; apply (ks_finish (set_failing s0))].
     + eapply reader_ok_keep; [apply reader_ok_feed; exact R0 | reflexivity | intros u; apply ks_finish].
     + (* CSend *)
-      eapply reader_ok_keep; [exact R0 | apply (table_push s0) | intros u; eapply ks_trans; [apply ks_push | apply ks_finish]].
+      eapply reader_ok_keep; [exact R0 | apply (rtable_push s0) | intros u; eapply ks_trans; [apply ks_push | apply ks_finish]].
     + match goal with |- reader_ok (set_pump_done (finish ?X t ResClosed)) =>
         eapply reader_ok_keep; [exact R0 | reflexivity | intros u; apply (ks_finish X t ResClosed u)] end.
     + match goal with |- reader_ok (finish ?X t ?r) =>
         eapply reader_ok_keep; [exact R0 | reflexivity | intros u; apply (ks_finish X t r u)] end.
   - destruct (closed s); [|destruct (buffering s)]; inversion H; subst.
-    + eapply reader_ok_keep; [exact R | apply table_finish_w | intros u; apply ks_finish_w].
+    + eapply reader_ok_keep; [exact R | apply rtable_finish_w | intros u; apply ks_finish_w].
     + eapply reader_ok_keep; [exact R | reflexivity | intros u; apply ks_set_task; destruct k; split; auto].
     + eapply reader_ok_keep; [exact R | reflexivity | intros u; apply ks_set_task; destruct k; split; auto].
   - inversion H; subst.
-    eapply reader_ok_keep; [exact R | rewrite table_finish_w; reflexivity | intros u; apply (ks_finish_w (set_queue s _ _))].
+    eapply reader_ok_keep; [exact R | rewrite rtable_finish_w; reflexivity | intros u; apply (ks_finish_w (set_queue s _ _))].
   - destruct (wr s); inversion H; subst;
       (eapply reader_ok_keep; [exact R | reflexivity | intros u; apply (ks_set_pc (set_lock s _ _))]).
   - discriminate.
@@ -860,25 +1008,28 @@ Proof.
   - destruct (failing s || shut s); inversion H; subst.
     + set (s1 := set_wire s (pkt s + 1)%N (wire s)).
       eapply reader_ok_keep; [exact R | | intros u; eapply ks_trans; [apply (ks_release_ws (waiters s1) s1 u) | apply ks_set_pc]].
-      cbn [table set_pc set_task set_tasks]. unfold release. destruct (release_ws_closed (waiters s1) s1) as [_ B]. exact B.
+      cbn [rtable set_pc set_task set_tasks]. unfold release. apply (rtable_release_ws (waiters s1) s1).
     + set (s1 := set_wire s (pkt s + 1)%N (wire s ++ [((pkt s + 1)%N, held)])).
       eapply reader_ok_keep; [exact R | | intros u; eapply ks_trans; [apply (ks_release_ws (waiters s1) s1 u) | apply ks_finish_w]].
-      rewrite table_finish_w. unfold release. destruct (release_ws_closed (waiters s1) s1) as [_ B]. exact B.
-  - inversion H; subst. eapply reader_ok_keep; [exact R | apply table_enter_close | intros u; apply ks_enter_close].
+      rewrite rtable_finish_w. unfold release. apply (rtable_release_ws (waiters s1) s1).
+  - inversion H; subst. eapply reader_ok_keep; [exact R | apply rtable_enter_close | intros u; apply ks_enter_close].
   - cbv zeta in H. inversion H; subst. apply reader_ok_drain.
-    eapply reader_ok_keep; [exact R | apply table_wake | intros u; apply ks_wake].
+    eapply reader_ok_keep; [exact R | apply rtable_wake | intros u; apply ks_wake].
   - destruct (wr s); inversion H; subst.
     + eapply reader_ok_keep; [exact R | reflexivity | intros u; apply (ks_set_pc (set_lock s _ _))].
-    + eapply reader_ok_keep; [exact R | rewrite table_finish_close; reflexivity | intros u; apply (ks_finish_close (set_shut s))].
+    + eapply reader_ok_keep; [exact R | rewrite rtable_finish_close; reflexivity | intros u; apply (ks_finish_close (set_shut s))].
   - discriminate.
-  - (* PO0 registers the stream *)
+  - (* PO0 allocates the id and registers the inbound queue *)
     inversion H; subst. clear H.
-    intros u sid H. cbn [table set_task set_tasks set_table]. cbn [tasks set_task set_tasks set_table] in H.
+    intros u sid H. cbn [rtable set_task set_tasks set_rtable]. cbn [tasks set_task set_tasks set_rtable] in H.
     destruct (Nat.eq_dec u t) as [->|Hne].
     + rewrite upd_same in H. cbn in H. inversion H; subst. left. apply in_or_app. right. left. reflexivity.
     + rewrite upd_other in H by exact Hne.
       destruct (R u sid H) as [A|A]; [left; apply in_or_app; left; exact A | right].
       cbn. rewrite upd_other by exact Hne. exact A.
+  - (* PO0b *)
+    inversion H; subst. eapply reader_ok_keep; [exact R | reflexivity |].
+    intros u. apply (ks_set_task (set_table s (next_sid s) (table s ++ [(sid, t)])) t _ u). split; auto.
   - inversion H; subst. eapply reader_ok_keep; [exact R | reflexivity | intros u; apply ks_set_task; split; auto].
   - discriminate.
 Qed.
@@ -938,7 +1089,7 @@ Proof.
   - inversion H; subst. apply ks_enter_close.
   - cbv zeta in H. inversion H; subst. set (s1 := wake_pump_closed s).
     eapply ks_trans; [apply ks_wake|]. fold s1.
-    eapply ks_trans; [|apply (ks_set_pc (set_table (set_tasks s1 (drain (table s1) (tasks s1))) (next_sid s1) []) t (PC2 a k) u)].
+    eapply ks_trans; [|apply (ks_set_pc (drain_state s1) t (PC2 a k) u)].
     change (keeps_stream (tasks s1 u) (drain (table s1) (tasks s1) u)).
     destruct (drain_keeps (table s1) (tasks s1) u) as (A & _ & B & _). split; [left; exact B | exact A].
   - destruct (wr s); inversion H; subst; [apply (ks_set_pc (set_lock s _ _)) | apply (ks_finish_close (set_shut s))].
@@ -946,6 +1097,7 @@ Proof.
   - inversion H; subst. destruct (Nat.eq_dec u t) as [->|Hne].
     + exfalso. apply NP; [reflexivity | unfold pcof; exact Epc].
     + cbn. rewrite upd_other by exact Hne. apply ks_refl.
+  - inversion H; subst. apply (ks_set_task (set_table s (next_sid s) (table s ++ [(sid, t)])) t _ u). split; auto.
   - inversion H; subst. apply ks_set_task. split; auto.
   - discriminate.
 Qed.
@@ -957,10 +1109,14 @@ Proof.
   unfold pcof. cbn. rewrite upd_same. reflexivity.
 Qed.
 
-Lemma step_self_not_po0 s t s' : step s t = Some s' -> closed s = true -> pcof s' t <> PO0.
+Definition is_pre (p : pc) : bool := match p with PO0 | PO0b _ => true | _ => false end.
+
+(* on a closed session nobody enters open_stream's registration any more *)
+Lemma step_self_not_pre s t s' :
+  step s t = Some s' -> closed s = true -> is_pre (pcof s t) = false -> is_pre (pcof s' t) = false.
 Proof.
-  intros H C. unfold step in H.
-  destruct (t_pc (tasks s t)) eqn:Epc.
+  intros H C P. unfold step in H. unfold pcof in P.
+  destruct (t_pc (tasks s t)) eqn:Epc; try discriminate.
   - destruct (t_prog (tasks s t)) as [|c rest]; [discriminate|].
     unfold start_call in H. set (x := with_prog (tasks s t) rest) in *. set (s0 := set_task s t x) in *.
     rewrite C in H.
@@ -968,53 +1124,133 @@ Proof.
       repeat match type of H with
              | context [match ?y with _ => _ end] => destruct y eqn:?
              end; inversion H; subst s'; clear H;
-      try (unfold pcof; cbn; rewrite ?upd_same; cbn; discriminate).
-    + destruct (pcof_enter_close_same s0 t AfterClose WkPlain) as [E|E]; rewrite E; discriminate.
-  - rewrite C in H. inversion H; subst. destruct (pcu_finish_w s t k ResClosed) as (_ & _ & E & _). rewrite E. discriminate.
+      try (unfold pcof; cbn; rewrite ?upd_same; cbn; reflexivity).
+    + destruct (pcof_enter_close_same s0 t AfterClose WkPlain) as [E|E]; rewrite E; reflexivity.
+  - rewrite C in H. inversion H; subst. destruct (pcu_finish_w s t k ResClosed) as (_ & _ & E & _). rewrite E. reflexivity.
   - inversion H; subst.
     destruct (pcu_finish_w (set_queue s (pending s ++ [(t, f)]) (lin s ++ [(t, f)])) t k ResOk) as (_ & _ & E & _).
-    rewrite E. discriminate.
-  - destruct (wr s); inversion H; subst; unfold pcof; cbn; rewrite upd_same; discriminate.
-  - discriminate.
-  - inversion H; subst. unfold pcof; cbn; rewrite upd_same; discriminate.
+    rewrite E. reflexivity.
+  - destruct (wr s); inversion H; subst; unfold pcof; cbn; rewrite upd_same; reflexivity.
+  - inversion H; subst. unfold pcof; cbn; rewrite upd_same; reflexivity.
   - destruct (failing s || shut s); inversion H; subst.
-    + unfold pcof; cbn; rewrite upd_same; discriminate.
-    + match goal with |- pcof (finish_w ?a t k ResOk) t <> _ => destruct (pcu_finish_w a t k ResOk) as (_ & _ & E & _) end.
-      rewrite E. discriminate.
-  - inversion H; subst. destruct (pcof_enter_close_same s t a k) as [E|E]; rewrite E; discriminate.
-  - inversion H; subst. unfold pcof; cbn; rewrite upd_same; discriminate.
-  - destruct (wr s); inversion H; subst; [unfold pcof; cbn; rewrite upd_same; discriminate|].
-    rewrite pcof_finish_close_same. discriminate.
-  - discriminate.
-  - inversion H; subst. unfold pcof; cbn; rewrite upd_same; discriminate.
-  - inversion H; subst. unfold pcof; cbn; rewrite upd_same; discriminate.
-  - discriminate.
+    + unfold pcof; cbn; rewrite upd_same; reflexivity.
+    + match goal with |- is_pre (pcof (finish_w ?a t k ResOk) t) = _ => destruct (pcu_finish_w a t k ResOk) as (_ & _ & E & _) end.
+      rewrite E. reflexivity.
+  - inversion H; subst. destruct (pcof_enter_close_same s t a k) as [E|E]; rewrite E; reflexivity.
+  - cbv zeta in H. inversion H; subst. unfold pcof; cbn; rewrite upd_same; reflexivity.
+  - destruct (wr s); inversion H; subst; [unfold pcof; cbn; rewrite upd_same; reflexivity|].
+    rewrite pcof_finish_close_same. reflexivity.
+  - inversion H; subst. unfold pcof; cbn; rewrite upd_same; reflexivity.
 Qed.
 
-(* ---- the window of open_stream: the closed flag is examined BEFORE the id is allocated and the stream
-   registered (no lock spans the two), so a stream can be registered after close() has drained the tables.
-   Such an entry is never handed to a caller: its owner is still inside open_stream, the SYN it is about to
-   submit fails on the closed flag, and open_stream returns the error (the handle is dropped). ---- *)
+(* ---- the windows of open_stream. The closed flag is examined BEFORE the id is allocated, and the stream is put
+   into the two tables by two separate lock acquisitions; no lock spans any two of these. So a stream can be
+   registered (in one table, then in the other) after close() has drained them. Such an entry is never handed to a
+   caller: its owner is still inside open_stream, the SYN it is about to submit fails on the closed flag, and
+   open_stream returns the error (the handle is dropped). ---- *)
 Definition in_window (p : pc) (sid : N) : Prop := p = PO1 sid \/ p = PW0 WkOpen (syn_frame sid).
+Definition in_window_r (p : pc) (sid : N) : Prop := p = PO0b sid \/ in_window p sid.
 Definition late_entry (s : state) (sid : N) (u : tid) : Prop :=
-  in_window (pcof s u) sid \/ (t_sid (tasks s u) = None /\ pcof s u <> PO0).
+  in_window (pcof s u) sid \/ (t_sid (tasks s u) = None /\ is_pre (pcof s u) = false).
+Definition late_entry_r (s : state) (sid : N) (u : tid) : Prop :=
+  in_window_r (pcof s u) sid \/ (t_sid (tasks s u) = None /\ is_pre (pcof s u) = false).
+
+(* in every state: an inbound queue without a `streams` entry belongs to an open_stream between its two inserts *)
+Definition half_ok (s : state) : Prop :=
+  forall sid u, In (sid, u) (rtable s) -> In (sid, u) (table s) \/ pcof s u = PO0b sid.
+
+Lemma other_keeps_po0b s t s' u sid : Inv s -> step s t = Some s' -> u <> t -> pcof s u = PO0b sid -> pcof s' u = PO0b sid.
+Proof.
+  intros HI H Hne P.
+  destruct (step_others s t s' HI H u Hne) as [[E|[(k & f & A & _)|(a & k & A & _)]]|[(_ & A & _)|(A & _)]];
+    try (rewrite A in P; discriminate). rewrite E. exact P.
+Qed.
+
+Lemma remove_owner_not_in tb sid o : ~ In (sid, o) (remove_owner tb o).
+Proof. unfold remove_owner. intros H. apply filter_In in H. destruct H as [_ X]. cbn in X. rewrite Nat.eqb_refl in X. discriminate. Qed.
+
+Theorem step_half_ok s t s' : Inv s -> half_ok s -> step s t = Some s' -> half_ok s'.
+Proof.
+  intros HI Hh H sid u Hin.
+  destruct (step_tables s t s' H) as [T R NP|a k P T R|o P T R|P T R|x P T R].
+  - rewrite R in Hin. destruct (Hh sid u Hin) as [A|A]; [left; rewrite T; exact A | right].
+    destruct (Nat.eq_dec u t) as [->|Hne]; [exfalso; apply (proj1 NP sid A) | eapply other_keeps_po0b; eauto].
+  - rewrite R in Hin. pose proof (in_minus_pairs_inv _ _ _ Hin) as Hin0. pose proof (minus_pairs_not_in _ _ _ Hin) as Nt.
+    destruct (Hh sid u Hin0) as [A|A]; [contradiction | right].
+    destruct (Nat.eq_dec u t) as [->|Hne]; [rewrite P in A; discriminate | eapply other_keeps_po0b; eauto].
+  - assert (In (sid, u) (rtable s) /\ u <> o) as [Hin0 Huo].
+    { destruct R as [R|[R L]]; rewrite R in Hin.
+      - split; [eapply in_remove_owner_inv; exact Hin | intros ->; exact (remove_owner_not_in _ _ _ Hin)].
+      - split; [exact Hin | intros ->; exact (lookup_none_not_in _ _ L sid Hin)]. }
+    destruct (Hh sid u Hin0) as [A|A]; [left; rewrite T; apply in_remove_owner; assumption | right].
+    destruct (Nat.eq_dec u t) as [->|Hne]; [rewrite P in A; discriminate | eapply other_keeps_po0b; eauto].
+  - rewrite R in Hin. apply in_app_or in Hin. destruct Hin as [Hin|[E|[]]].
+    + destruct (Hh sid u Hin) as [A|A]; [left; rewrite T; exact A | right].
+      destruct (Nat.eq_dec u t) as [->|Hne]; [rewrite P in A; discriminate | eapply other_keeps_po0b; eauto].
+    + inversion E; subst. right. unfold step in H. unfold pcof in P. rewrite P in H. inversion H; subst.
+      unfold pcof. cbn. rewrite upd_same. reflexivity.
+  - rewrite R in Hin. destruct (Hh sid u Hin) as [A|A]; [left; rewrite T; apply in_or_app; left; exact A|].
+    destruct (Nat.eq_dec u t) as [->|Hne].
+    + rewrite P in A. inversion A; subst. left. rewrite T. apply in_or_app. right. left. reflexivity.
+    + right. eapply other_keeps_po0b; eauto.
+Qed.
+
+Lemma half_ok_init progs buf pend : half_ok (init progs buf pend).
+Proof. intros sid u H. destruct H. Qed.
 
 Definition drained_ok (s : state) : Prop :=
   closed s = true ->
-  (exists x, is_pc1 (pcof s x) = true) \/ forall sid u, In (sid, u) (table s) -> late_entry s sid u.
+  (exists x, is_pc1 (pcof s x) = true) \/
+  ((forall sid u, In (sid, u) (table s) -> late_entry s sid u) /\
+   (forall sid u, In (sid, u) (rtable s) -> late_entry_r s sid u)).
+
+Lemma step_self_late_r s t s' sid :
+  step s t = Some s' -> closed s = true -> late_entry_r s sid t -> late_entry_r s' sid t.
+Proof.
+  intros H C [[W|[W|W]]|[Sn Np]].
+  - (* PO0b: the second insert *)
+    left. right. left. unfold step in H. unfold pcof in W. rewrite W in H. inversion H; subst.
+    unfold pcof. cbn. rewrite upd_same. reflexivity.
+  - (* PO1: the SYN is submitted *)
+    left. right. right. unfold step in H. unfold pcof in W. rewrite W in H. inversion H; subst.
+    unfold pcof. cbn. rewrite upd_same. reflexivity.
+  - (* PW0 of the SYN: the closed flag is seen, open_stream returns the error and drops the handle *)
+    right. unfold step in H. unfold pcof in W. rewrite W, C in H. inversion H; subst.
+    unfold pcof. cbn. rewrite upd_same. cbn. split; reflexivity.
+  - right. split; [|eapply step_self_not_pre; eauto].
+    assert (pcof s t <> PO0) as Np0 by (intros E; rewrite E in Np; discriminate).
+    destruct (step_keeps s t s' t H (fun _ => Np0)) as [[E|E] _]; [rewrite E; exact Sn | exact E].
+Qed.
 
 Lemma step_self_late s t s' sid :
   step s t = Some s' -> closed s = true -> late_entry s sid t -> late_entry s' sid t.
 Proof.
-  intros H C [[W|W]|[Sn Np]].
-  - (* PO1: the SYN is submitted *)
-    left. right. unfold step in H. unfold pcof in W. rewrite W in H. inversion H; subst.
-    unfold pcof. cbn. rewrite upd_same. reflexivity.
-  - (* PW0 of the SYN: the closed flag is seen, open_stream returns the error and drops the handle *)
-    right. unfold step in H. unfold pcof in W. rewrite W, C in H. inversion H; subst.
-    unfold pcof. cbn. rewrite upd_same. cbn. split; [reflexivity | discriminate].
-  - right. split; [|eapply step_self_not_po0; eauto].
-    destruct (step_keeps s t s' t H (fun _ => Np)) as [[E|E] _]; [rewrite E; exact Sn | exact E].
+  intros H C L.
+  assert (late_entry_r s sid t) as Lr by (destruct L as [W|N]; [left; right; exact W | right; exact N]).
+  destruct L as [W|N].
+  - destruct W as [W|W].
+    + left. right. unfold step in H. unfold pcof in W. rewrite W in H. inversion H; subst.
+      unfold pcof. cbn. rewrite upd_same. reflexivity.
+    + right. unfold step in H. unfold pcof in W. rewrite W, C in H. inversion H; subst.
+      unfold pcof. cbn. rewrite upd_same. cbn. split; reflexivity.
+  - destruct (step_self_late_r s t s' sid H C (or_intror N)) as [[W|W]|N']; [| left; exact W | right; exact N'].
+    (* the task cannot be between its two inserts: it was not in the registration before *)
+    exfalso. destruct N as [_ Np]. pose proof (step_self_not_pre s t s' H C Np) as X. rewrite W in X. discriminate.
+Qed.
+
+Lemma step_other_late_r s t s' sid u :
+  Inv s -> step s t = Some s' -> u <> t -> late_entry_r s sid u -> late_entry_r s' sid u.
+Proof.
+  intros HI H Hne L.
+  pose proof (step_others s t s' HI H u Hne) as O.
+  destruct L as [W|[Sn Np]].
+  - left. assert (pcof s' u = pcof s u) as E; [|rewrite E; exact W].
+    destruct O as [[E|[(k & f & A & _)|(a & k & A & _)]]|[(_ & A & _)|(A & _)]]; [exact E | | | |];
+      destruct W as [W|[W|W]]; rewrite W in A; discriminate.
+  - right. split.
+    + destruct (step_keeps s t s' u H (fun E => False_ind _ (Hne E))) as [[E|E] _]; [rewrite E; exact Sn | exact E].
+    + destruct O as [[E|[(k & f & _ & B)|(a & k & _ & B & _)]]|[(_ & _ & [B|B])|(_ & [B|[f B]])]];
+        try (rewrite B; reflexivity). rewrite E. exact Np.
 Qed.
 
 Lemma step_other_late s t s' sid u :
@@ -1026,35 +1262,49 @@ Proof.
   - left. assert (pcof s' u = pcof s u) as E; [|rewrite E; exact W].
     destruct O as [[E|[(k & f & A & _)|(a & k & A & _)]]|[(_ & A & _)|(A & _)]]; [exact E | | | |];
       destruct W as [W|W]; rewrite W in A; discriminate.
-  - right. split.
-    + destruct (step_keeps s t s' u H (fun E => False_ind _ (Hne E))) as [[E|E] _]; [rewrite E; exact Sn | exact E].
-    + intros P. destruct O as [[E|[(k & f & _ & B)|(a & k & _ & B & _)]]|[(_ & _ & [B|B])|(_ & [B|[f B]])]];
-        try (rewrite B in P; discriminate).
-      apply Np. rewrite <- E. exact P.
+  - destruct (step_other_late_r s t s' sid u HI H Hne (or_intror (conj Sn Np))) as [[W|W]|N]; [| left; exact W | right; exact N].
+    exfalso. destruct O as [[E|[(k & f & _ & B)|(a & k & _ & B & _)]]|[(_ & _ & [B|B])|(_ & [B|[f B]])]];
+      try (rewrite B in W; discriminate). rewrite E in W. rewrite W in Np. discriminate.
 Qed.
 
-Theorem step_drained_ok s t s' : Inv s -> drained_ok s -> step s t = Some s' -> drained_ok s'.
+Theorem step_drained_ok s t s' : Inv s -> half_ok s -> drained_ok s -> step s t = Some s' -> drained_ok s'.
 Proof.
-  intros HI D H C'. destruct (closed s) eqn:C.
-  - destruct (D C) as [[x Hx]|R].
+  intros HI Hh D H C'. destruct (closed s) eqn:C.
+  - destruct (D C) as [[x Hx]|[Rt Rr]].
     + destruct (Nat.eq_dec x t) as [->|Hne].
-      * right. unfold pcof in Hx. destruct (t_pc (tasks s t)) eqn:Epc; try discriminate.
-        destruct (close_drain_step s t a k s' ltac:(unfold pcof; exact Epc) H) as [E _].
-        rewrite E. intros sid u [].
+      * (* the drain itself *)
+        right. unfold pcof in Hx. destruct (t_pc (tasks s t)) eqn:Epc; try discriminate.
+        destruct (step_tables s t s' H) as [_ _ NP|a' k' P T R|o P _ _|P _ _|y P _ _];
+          try (unfold pcof in P; rewrite Epc in P; discriminate).
+        -- exfalso. destruct NP as [_ NP]. unfold pcof in NP. rewrite Epc in NP. discriminate.
+        -- split; [rewrite T; intros sid u []|].
+           intros sid u Hin. rewrite R in Hin.
+           pose proof (in_minus_pairs_inv _ _ _ Hin) as Hin0. pose proof (minus_pairs_not_in _ _ _ Hin) as Nt.
+           destruct (Hh sid u Hin0) as [A|A]; [contradiction|].
+           left. left. destruct (Nat.eq_dec u t) as [->|Hne]; [unfold pcof in A; rewrite Epc in A; discriminate | eapply other_keeps_po0b; eauto].
       * left. destruct (step_others s t s' HI H x Hne) as [[E|[(k & f & A & _)|(a & k & A & _)]]|[(_ & A & _)|(A & _)]].
         -- exists x. rewrite E. exact Hx.
         -- rewrite A in Hx. discriminate.
         -- rewrite A in Hx. discriminate.
         -- rewrite A in Hx. discriminate.
         -- rewrite A in Hx. discriminate.
-    + right. intros sid u Hin.
-      destruct (step_table_in s t s' (sid, u) H Hin) as [Hold|[P E]].
-      * specialize (R sid u Hold). destruct (Nat.eq_dec u t) as [->|Hne].
-        -- eapply step_self_late; eauto.
-        -- eapply step_other_late; eauto.
-      * inversion E; subst. left. left.
-        unfold step in H. unfold pcof in P. rewrite P in H. inversion H; subst.
-        unfold pcof. cbn. rewrite upd_same. reflexivity.
+    + right. split.
+      * intros sid u Hin.
+        destruct (step_table_in s t s' (sid, u) H Hin) as [Hold|(y & P & E)].
+        -- specialize (Rt sid u Hold). destruct (Nat.eq_dec u t) as [->|Hne].
+           ++ eapply step_self_late; eauto.
+           ++ eapply step_other_late; eauto.
+        -- inversion E; subst. left. left.
+           unfold step in H. unfold pcof in P. rewrite P in H. inversion H; subst.
+           unfold pcof. cbn. rewrite upd_same. reflexivity.
+      * intros sid u Hin.
+        destruct (step_rtable_in s t s' (sid, u) H Hin) as [Hold|[P E]].
+        -- specialize (Rr sid u Hold). destruct (Nat.eq_dec u t) as [->|Hne].
+           ++ eapply step_self_late_r; eauto.
+           ++ eapply step_other_late_r; eauto.
+        -- inversion E; subst. left. left.
+           unfold step in H. unfold pcof in P. rewrite P in H. inversion H; subst.
+           unfold pcof. cbn. rewrite upd_same. reflexivity.
   - destruct (step_closed_by_pc1 s t s' H C C') as [A|[_ A]]; left; eauto.
 Qed.
 
@@ -1067,15 +1317,18 @@ Definition quiescent_close (s : state) : Prop := forall x, in_close (pcof s x) =
 Theorem dead_session_released sched progs buf pend :
   let s := run (init progs buf pend) sched in
   closed s = true -> quiescent_close s ->
-  shut s = true /\ forall sid u, In (sid, u) (table s) -> late_entry s sid u.
+  shut s = true /\
+  (forall sid u, In (sid, u) (table s) -> late_entry s sid u) /\
+  (forall sid u, In (sid, u) (rtable s) -> late_entry_r s sid u).
 Proof.
   intros s C Q.
-  assert (Inv s /\ shut_ok s /\ drained_ok s) as (HI & S & D).
+  assert (Inv s /\ shut_ok s /\ half_ok s /\ drained_ok s) as (HI & S & Hh & D).
   { unfold s. clear s C Q.
-    apply (run_invariant (fun s => Inv s /\ shut_ok s /\ drained_ok s)).
-    - intros s t s' HI (_ & S & D) H. split; [eapply step_inv; eauto | split; [eapply step_shut_ok; eauto | eapply step_drained_ok; eauto]].
+    apply (run_invariant (fun s => Inv s /\ shut_ok s /\ half_ok s /\ drained_ok s)).
+    - intros s t s' HI (_ & S & Hh & D) H.
+      split; [eapply step_inv; eauto | split; [eapply step_shut_ok; eauto | split; [eapply step_half_ok; eauto | eapply step_drained_ok; eauto]]].
     - apply inv_init.
-    - split; [apply inv_init | split; [apply shut_ok_init | apply drained_ok_init]]. }
+    - split; [apply inv_init | split; [apply shut_ok_init | split; [apply half_ok_init | apply drained_ok_init]]]. }
   split.
   - destruct (S C) as [A|[x A]]; [exact A | rewrite Q in A; discriminate].
   - destruct (D C) as [[x A]|A]; [|exact A]. specialize (Q x). destruct (pcof s x); discriminate.
@@ -1088,19 +1341,19 @@ Qed.
 Theorem dead_session_readers sched progs buf pend :
   let s := run (init progs buf pend) sched in
   closed s = true -> quiescent_close s ->
-  forall u sid, t_sid (tasks s u) = Some sid -> t_rclosed (tasks s u) = true \/ in_window (pcof s u) sid.
+  forall u sid, t_sid (tasks s u) = Some sid -> t_rclosed (tasks s u) = true \/ in_window_r (pcof s u) sid.
 Proof.
   intros s C Q u sid H.
   assert (reader_ok s) as R.
   { unfold s. apply (run_invariant reader_ok); [| apply inv_init | apply reader_ok_init].
     intros s1 t s2 _ R1 H1. eapply step_reader_ok; eauto. }
-  destruct (dead_session_released sched progs buf pend C Q) as [_ T]. fold s in T.
+  destruct (dead_session_released sched progs buf pend C Q) as (_ & _ & T). fold s in T.
   destruct (R u sid H) as [A|A]; [|left; exact A].
   destruct (T sid u A) as [W|[Sn _]]; [right; exact W | congruence].
 Qed.
 
-(* the open_stream call that registered its stream in the window fails: two steps later it has returned
-   SessionClosed, nothing was written, and the task holds no handle *)
+(* the open_stream call that registered its stream in the window fails: three steps after the first insert it has
+   returned SessionClosed, nothing was written, and the task holds no handle *)
 Theorem window_open_fails s t sid :
   closed s = true -> pcof s t = PO1 sid ->
   exists s1 s2, step s t = Some s1 /\ step s1 t = Some s2 /\
@@ -1111,4 +1364,11 @@ Proof.
   eexists. eexists. split; [unfold step; rewrite P; reflexivity|].
   split; [unfold step; cbn; rewrite upd_same; cbn; rewrite C; reflexivity|].
   cbn. rewrite !upd_same. cbn. repeat split; eexists; reflexivity.
+Qed.
+
+Theorem window_second_insert s t sid :
+  pcof s t = PO0b sid -> exists s1, step s t = Some s1 /\ pcof s1 t = PO1 sid /\ closed s1 = closed s /\ wire s1 = wire s.
+Proof.
+  intros P. unfold pcof in P. eexists. split; [unfold step; rewrite P; reflexivity|].
+  unfold pcof. cbn. rewrite upd_same. repeat split; reflexivity.
 Qed.
